@@ -9,6 +9,7 @@ python3 translator/py_to_coq.py "${VERIF_REPO:-/repo}" coq/theories/Gen || echo 
 # redundant ties (decision and loop functions translated from the source; see DESIGN.md section 2, step 1b)
 python3 translator/decisions.py "${VERIF_REPO:-/repo}" coq/theories/Gen || true
 python3 translator/loops.py "${VERIF_REPO:-/repo}" coq/theories/Gen || true
+for t in translator/loops_*.py translator/decisions_*.py; do [ -f "$t" ] && { python3 "$t" "${VERIF_REPO:-/repo}" coq/theories/Gen || true; }; done
 cd coq
 {
   echo "-Q theories PE"
